@@ -1481,7 +1481,7 @@ func (x *Exec) specBuiltin(st *State, env *Env, name string, args []Expr) (Value
 		st.apps = tmp.apps
 		st.ax = tmp.ax
 		return v, true
-	case "nev", "evarg", "evbefore":
+	case "nev", "evarg", "evbefore", "evres":
 		strArg := func(i int) string {
 			s, ok := x.eval(st, env, args[i]).(*Str)
 			if !ok || s.sym != nil {
@@ -1503,7 +1503,7 @@ func (x *Exec) specBuiltin(st *State, env *Env, name string, args []Expr) (Value
 				}
 			}
 			return mkInt(int64(n)), true
-		case "evarg":
+		case "evarg", "evres":
 			nm := strArg(0)
 			k, ok1 := concreteInt(num(1))
 			ai, ok2 := concreteInt(num(2))
@@ -1514,6 +1514,12 @@ func (x *Exec) specBuiltin(st *State, env *Env, name string, args []Expr) (Value
 			for _, ev := range evs {
 				if match(ev, nm) {
 					if n == k {
+						if name == "evres" {
+							if ai >= len(ev.res) {
+								fail("evres: event %s has %d results", nm, len(ev.res))
+							}
+							return ev.res[ai], true
+						}
 						if ai >= len(ev.args) {
 							fail("evarg: event %s has %d arguments", nm, len(ev.args))
 						}
